@@ -155,8 +155,10 @@ OpOk(e) ==
          C("C19", "fresh", e.ret = "fresh") \cup C("C19", "value", RepOf(PR(e.post[e.outs[1]]), BasePt))
     [] e.op = "NewScalar" ->
          C("C19", "fresh", e.ret = "fresh") \cup C("C07", "zero", SV(e.post[e.outs[1]]) = BNZero)
-    [] e.op = "Point.Set" ->
-         V(e, "C11", "copy", rpost = a(1)) \cup C("C11", "ret.recv", e.ret = "recv") \cup Frame(e, {e.recv})
+    [] e.op = "Point.Set" ->      \* v = u as points (a zero-value argument is copied as such: Set is exempt from the guard)
+         V(e, "C11", "copy", IF Uninit(a(1)) THEN Uninit(rpost)
+                             ELSE ~Uninit(rpost) /\ SamePoint(PR(rpost), PR(a(1))) /\ (ValidP3(PR(rpost)) <=> ValidP3(PR(a(1)))))
+         \cup C("C11", "ret.recv", e.ret = "recv") \cup Frame(e, {e.recv}) \cup Drift("drift.set.rawcopy", rpost = a(1))
     [] e.op = "Point.SetBytes" ->
          LET s == BufBytes(a(1))  acc == DecodeOK(s) IN
          C("C04", "accept.iff", (e.err = 0) <=> acc)
@@ -210,7 +212,8 @@ OpOk(e) ==
          \cup Frame(e, {e.recv})
     \* ----- scalars
     [] e.op = "Scalar.Set" ->
-         V(e, "C11", "copy", rpost = a(1)) \cup C("C11", "ret.recv", e.ret = "recv") \cup Frame(e, {e.recv})
+         V(e, "C11", "copy", SV(rpost) = SV(a(1))) \cup C("C11", "ret.recv", e.ret = "recv") \cup Frame(e, {e.recv})
+         \cup Drift("drift.set.rawcopy", rpost = a(1))
     [] e.op = "Scalar.Add" ->
          V(e, "C07", "value", SV(rpost) = SAdd(SV(a(1)), SV(a(2)))) \cup C("C07", "ret.recv", e.ret = "recv") \cup Frame(e, {e.recv})
     [] e.op = "Scalar.Subtract" ->
@@ -248,7 +251,8 @@ OpOk(e) ==
     [] e.op = "Elem.Zero" -> C("C09", "value", EV(rpost) = FZero) \cup C("C09", "ret.recv", e.ret = "recv")
     [] e.op = "Elem.One"  -> C("C09", "value", EV(rpost) = FOne) \cup C("C09", "ret.recv", e.ret = "recv")
     [] e.op = "Elem.Set"  ->
-         V(e, "C11", "copy", rpost = a(1)) \cup C("C11", "ret.recv", e.ret = "recv") \cup Frame(e, {e.recv})
+         V(e, "C11", "copy", EV(rpost) = EV(a(1))) \cup C("C11", "ret.recv", e.ret = "recv") \cup Frame(e, {e.recv})
+         \cup Drift("drift.set.rawcopy", rpost = a(1))
     [] e.op = "Elem.Add" ->
          V(e, "C09", "value", EV(rpost) = FAdd(EV(a(1)), EV(a(2)))) \cup C("C09", "ret.recv", e.ret = "recv") \cup Frame(e, {e.recv})
          \cup Drift("drift.limbs.add", LV(rpost) = LAdd(LV(a(1)), LV(a(2))))
